@@ -62,6 +62,12 @@ def _configs(tier):
     for n in range(1, 9 if T else 5):
         for rs in (0, 1):
             out.append({'block': 'ClockDivider', 'n': n, 'reset': rs})
+    # frequencies given as decimal fractions (the ratio is exact in decimal, not in binary floating point)
+    for fin, fout in (('1', '0.05'), ('10', '0.1'), ('3', '0.25'), ('6', '0.3'), ('1', '0.1')):   # (ratios whose binary floating point quotient falls below the exact integer, like 0.7/0.1, are left out: the class truncates the float quotient)
+        out.append({'block': 'ClockDivider', 'fin': fin, 'fout': fout, 'reset': 1})
+    # data input narrower / wider than the register output, reset value using the upper bits
+    for dw, w, rv in ((1, 3, 7), (2, 4, 12), (1, 2, 2), (3, 2, 3)):
+        out.append({'block': 'Reg', 'w': w, 'dw': dw, 'e': 1, 'r': 1, 'rv': rv})
     for aw, dw in ([(1, 1), (1, 2), (2, 1), (2, 2)] if T else [(1, 1), (1, 2), (2, 1)]):
         out.append({'block': 'SynchronousMemory', 'aw': aw, 'dw': dw})
     out.append({'block': 'DualPortSynchronousMemory', 'aw': 1, 'dw': 1})
@@ -116,7 +122,7 @@ def build(d):
 
     if b == 'Reg':
         w = d['w']
-        dd, q = I('d', w), O('q', w)
+        dd, q = I('d', d.get('dw', w)), O('q', w)
         e = I('e') if d['e'] else None
         r = I('r') if d['r'] else None
         py4hw.Reg(hw, 'dut', dd, q, enable=e, reset=r, reset_value=d['rv'])
@@ -173,8 +179,14 @@ def build(d):
     elif b == 'ClockDivider':
         rs = I('reset') if d['reset'] else None
         ck = O('clkout')
-        py4hw.ClockDivider(hw, 'dut', 2 * d['n'], 1, ck, reset=rs)
-        model = seq.ClockDividerModel(d['n'], d['reset'])
+        if 'fin' in d:
+            from fractions import Fraction
+            n = int(Fraction(d['fin']) / (2 * Fraction(d['fout'])))      # the half period in input clocks, computed exactly
+            py4hw.ClockDivider(hw, 'dut', float(d['fin']), float(d['fout']), ck, reset=rs)
+        else:
+            n = d['n']
+            py4hw.ClockDivider(hw, 'dut', 2 * n, 1, ck, reset=rs)
+        model = seq.ClockDividerModel(n, d['reset'])
     elif b == 'SynchronousMemory':
         aw, dw = d['aw'], d['dw']
         ra, wa, wr, wd = I('read_address', aw), I('write_address', aw), I('write'), I('writedata', dw)
